@@ -11,17 +11,21 @@ const ADDR: &[u8; 5] = b"AIVDM";
 /// random walk over a small alphabet of validly numbered headers: dense coverage of the
 /// reassembly state space (the link-based generator covers the realistic shapes)
 fn walk_ops(rng: &mut Rng) -> (Vec<Op>, usize, String) {
-    let ids: Vec<Option<u8>> = match rng.below(4) {
+    let ids: Vec<Option<u8>> = match rng.below(9) {
         0 => vec![None],
         1 => vec![Some(1)],
         2 => vec![None, Some(0)],
+        3 => vec![None, Some(255)],
+        4 => vec![Some(9), Some(10)],
+        5 => vec![Some(25), Some(255), Some(5)],
+        6 => vec![Some(1), Some(10), Some(100)],
         _ => vec![Some(0), Some(1), Some(7)],
     };
-    let max_n = *rng.pick(&[2usize, 3, 3, 4, 5, 9]);
-    let len = rng.range(2, 14);
+    let max_n = *rng.pick(&[2usize, 3, 3, 4, 5, 9, 12, 30]);
+    let len = if max_n > 9 { rng.range(8, 40) } else { rng.range(2, 14) };
     let decode = DecodePolicy::swarm(rng);
     let restart_pm = *rng.pick(&[0u32, 0, 30, 100]);
-    let seq_bias = *rng.pick(&[0u32, 400, 700, 900]);
+    let seq_bias = if max_n > 9 { *rng.pick(&[900u32, 950, 980]) } else { *rng.pick(&[0u32, 400, 700, 900]) };
     let mut ops = Vec::new();
     let mut last: Option<(u8, u8, Option<u8>)> = None;
     for _ in 0..len {
